@@ -2186,6 +2186,34 @@ class Executor:
 
     def slice_store(self, base, a, idx_nodes, v, st, node, spec):
         """a[<sel0>, <sel1>] = scalar where each selector is ':' or a tuple of integer constants / an index"""
+        if a.ndim == 1 and len(idx_nodes) == 1 and isinstance(idx_nodes[0], ast.Slice) and idx_nodes[0].step is None:
+            # a[lo:hi] = scalar | 1-D array of that length (non-negative bounds, clamped to the length as Python does)
+            sl = idx_nodes[0]
+            n_ = a.shape[0]
+            lo = to_int(self.ev(sl.lower, st, spec), node) if sl.lower is not None else z3.IntVal(0)
+            hi = to_int(self.ev(sl.upper, st, spec), node) if sl.upper is not None else n_
+            if not spec:
+                self.oblige(st, "index", "%s.slice" % self.line_tag(node), z3.And(lo >= 0, hi >= 0), node, desc="slice bounds are non-negative")
+            lo_c = z3.If(lo > n_, n_, lo)
+            hi_c = z3.If(hi > n_, n_, hi)
+            i = z3.Int(fresh_name("s"))
+            inside = z3.And(i >= lo_c, i < hi_c)
+            if isinstance(v, VRef):
+                src = st.heap[v.cell]
+                if src.ndim != 1:
+                    raise Unsupported("slice store of an n-d array", node)
+                if not spec:
+                    self.oblige(st, "shape", "%s.slicelen" % self.line_tag(node),
+                                src.shape[0] == z3.If(hi_c > lo_c, hi_c - lo_c, 0), node, desc="the stored array has the slice's length")
+                val = self.unwrap_elem(a, self.wrap_elem(src, src.select([i - lo_c])), node)
+            else:
+                val = self.unwrap_elem(a, v, node)
+            self.note_write(st, base, node)
+            # a named array with a defining axiom (pattern: its own select) instantiates better than a lambda term
+            named = fresh_array("sliced", a.et, 1)
+            st.assume(z3.ForAll([i], z3.Select(named, i) == z3.If(inside, val, a.select([i])), patterns=[z3.Select(named, i)]))
+            st.heap[base.cell] = a.with_elems(named)
+            return
         if isinstance(v, VRef) or len(idx_nodes) != a.ndim:
             raise Unsupported("slice store of array / partial", node)
         bound = [z3.Int(fresh_name("s")) for _ in range(a.ndim)]
